@@ -391,9 +391,25 @@ func (c *ctx) reuseEvents() {
 				return out
 			}, c.bytesN(15), c.bytesN(3*c.rnd.Intn(5))))
 	}
+	// whole frames; the first one sometimes with reserved MHDR bits set (a sender of a later revision); the value is observed
+	// through its exported fields AND through what it encodes to (unexported members count too)
+	fb1, fb2 := c.validFrameBytes(), c.validFrameBytes()
+	if len(fb1) > 0 && c.rnd.Intn(2) == 0 {
+		fb1[0] |= byte(1+c.rnd.Intn(7)) << 2
+	}
 	c.emit(reuseEvent("phy", func() interface{} { return &lorawan.PHYPayload{} },
 		func(p interface{}, b []byte) error { return p.(*lorawan.PHYPayload).UnmarshalBinary(b) },
-		func(p interface{}) interface{} { return phyToVal(p.(*lorawan.PHYPayload)) }, c.validFrameBytes(), c.validFrameBytes()))
+		func(p interface{}) interface{} {
+			out := M{"val": phyToVal(p.(*lorawan.PHYPayload))}
+			var re []byte
+			res, _ := observeFast(func() error {
+				var err error
+				re, err = p.(*lorawan.PHYPayload).MarshalBinary()
+				return err
+			})
+			out["rerr"], out["re"] = res, bs(re)
+			return out
+		}, fb1, fb2))
 	// application-layer payloads and command sequences
 	for _, pn := range alPkgNames {
 		pk := alPkgs[pn]
